@@ -5,6 +5,7 @@
 // (2) write trap on the replicas' writable image and on the shared-input arena; (3) environment
 // trap on libc entry points; (4) no TLS segment in any replica.
 #include <algorithm>
+#include <set>
 #include "core.hpp"
 #include "wkd_model.hpp"
 #include "sched.hpp"
@@ -162,7 +163,9 @@ struct ConcRun {
         // ---- the same scripts as concurrent tasks under the seeded scheduler
         Scheduler sched; sched.p_switch_log2 = (uint32_t) plan.c("pswitch", 6);
         std::vector<Scratch> sc(ntasks); for (auto& s : sc) s.init(R);
-        for (size_t t = 0; t < ntasks; t++) { conc[t].digests.reserve(scripts[t].size() + 1); sched.add([this, t, &scripts, &sc, &conc] { for (auto& op : scripts[t]) conc[t].digests.push_back(exec(op, sc[t])); }); }
+        std::vector<int> cur_kind(ntasks, -1); std::vector<std::pair<int, int>> ilv; ilv.reserve(1 << 16);
+        sched.on_switch = [&](int from, int to) { if (ilv.size() < ilv.capacity()) ilv.push_back({cur_kind[(size_t) from], cur_kind[(size_t) to]}); };
+        for (size_t t = 0; t < ntasks; t++) { conc[t].digests.reserve(scripts[t].size() + 1); sched.add([this, t, &scripts, &sc, &conc, &cur_kind] { for (auto& op : scripts[t]) { cur_kind[t] = (int) (op.arg(0) % NKINDS); conc[t].digests.push_back(exec(op, sc[t])); } cur_kind[t] = -1; }); }
         sched.run((uint64_t) plan.c("sched_seed", 1));
         env.count("probe:context_switches", sched.switches); env.count("probe:yield_points_passed", sched.global_yield);
         env.count("probe:yields_at_field_multiplication_hook", sched.hook_yields); env.count("probe:yields_at_random_or_hash_callback", sched.cb_yields);
@@ -174,6 +177,8 @@ struct ConcRun {
                 env.fail("C20", "M-solo:concurrent-equals-sequential", strf("task %zu op %zu (kind %lld) produced %s when run concurrently with %zu other tasks (%llu context switches) but %s when run alone", t, i, (long long) scripts[t][i].arg(0) % NKINDS, conc[t].digests[i].c_str(), ntasks - 1, (unsigned long long) sched.switches, solo[t].digests[i].c_str()));
             env.logf("T%zu op%zu k%lld %s", t, i, (long long) scripts[t][i].arg(0) % NKINDS, solo[t].digests[i].c_str());
         }
+        // distinct interleavings reached: (op kind that was preempted, op kind that ran instead; -1 = a task between/after its ops)
+        { std::set<std::pair<int, int>> seen(ilv.begin(), ilv.end()); for (auto& pr : seen) env.add_case(strf("ilv %d>%d", pr.first, pr.second), true); env.count("probe:distinct_op_kind_interleavings_in_run", seen.size()); }
         std::string kinds; for (size_t t = 0; t < ntasks; t++) { for (auto& op : scripts[t]) kinds += strf("%lld,", (long long) op.arg(0) % NKINDS); kinds += "|"; }
         env.add_case(strf("conc %s ps%lld sw%llu", kinds.c_str(), (long long) plan.c("pswitch", 6), (unsigned long long) std::min<uint64_t>(sched.switches, 50)), sched.switches > 0);
         { std::string ty; for (auto t : sched.tasks) ty += std::to_string(t->yields) + ","; env.logf("CONC tasks=%zu switches=%llu yields=%llu per-task=%s", ntasks, (unsigned long long) sched.switches, (unsigned long long) sched.global_yield, ty.c_str()); }
